@@ -273,6 +273,12 @@ impl<'a> Gen<'a> {
         u
     }
 
+    /// A string with characters on which Rust's `Debug` escaping and JSON escaping differ
+    /// (control characters, DEL, zero-width joiner) — it has to be quoted as JSON text.
+    pub fn awkward_string() -> Doc {
+        Doc::Str("nul\u{0}esc\u{1b}bs\u{8}del\u{7f}zwj\u{200d}q\"\\".to_string())
+    }
+
     fn kind_reps() -> Vec<Doc> {
         vec![
             Doc::Null,
@@ -290,7 +296,7 @@ impl<'a> Gen<'a> {
         use Scalar::*;
         let mut v: Vec<Doc> = Self::kind_reps();
         match sc {
-            U8 => v.extend([Doc::Int(256), Doc::Int(3), Doc::Int(250)]),
+            U8 => v.extend([Doc::Int(256), Doc::Int(3), Doc::Int(250), Self::awkward_string()]),
             I8 => v.extend([Doc::Int(128), Doc::Neg(-129), Doc::Neg(-128)]),
             NzU8 => v.extend([Doc::Int(0), Doc::Int(256)]),
             NzI8 => v.extend([Doc::Int(0), Doc::Int(128), Doc::Neg(-129)]),
@@ -306,7 +312,7 @@ impl<'a> Gen<'a> {
             U64 => v.extend([Doc::Int(u64::MAX)]),
             I64 => v.extend([Doc::Int(u64::MAX), Doc::Neg(i64::MIN)]),
             F32 => v.extend([Doc::Float(1e39), Doc::Int(u64::MAX)]),
-            Bool => v.extend([Doc::Bool(false)]),
+            Bool => v.extend([Doc::Bool(false), Self::awkward_string()]),
             Str => v.extend([Doc::s(""), Doc::Str(format!("a{}", "é".repeat(40)))]),
             _ => {}
         }
